@@ -237,6 +237,9 @@ def run_sim_class(chk, cls, scs, mons, variant=None, batch=250, tag=None):
         # library's default configuration (execution_logging=True) instead
         if variant is None and "variant" not in sc and k % 4 == 2:
             sc["variant"] = {"execution_logging": True}
+        # ... and every ninth with the documented debug switch on as well (debug-level records are then built)
+        if variant is None and "variant" not in sc and k % 9 == 7:
+            sc["variant"] = {"execution_logging": True, "debug": True}
     for i in range(0, len(scs), batch):
         part = scs[i:i + batch]
         for r in corr.corr_sims(part, variant=variant):
@@ -1463,6 +1466,8 @@ def gen_mission_case(R, maxops=14):
     case = {"speed": R.choice([5.0, 1.0, 12.5]), "mode": mode, "tol": tol, "ops": ops}
     if R.random() < 0.3:
         case["via_file"] = True          # missions handed over through start_mission_with_waypoint_file
+    if R.random() < 0.3:
+        case["decoy"] = True             # the protocol owns a second, idle mission plugin created after this one
     return case
 
 
@@ -1558,6 +1563,8 @@ def gen_trip_case(R, scripted=False, maxops=14):
                 w = tuple(box[k][0] + (box[k][1] - box[k][0]) * st[cur + k] for k in range(3))
                 cur += 3
                 target, ongoing = w, True
+    if R.random() < 0.3:
+        case["decoy"] = True     # the protocol also owns an idle mission plugin and a second trip plugin that never starts
     return case
 
 
@@ -1656,6 +1663,14 @@ def check_C20(chk, R, S):
                                [{"trig": ("init",), "nth": None, "acts": [("goto",) + conv3]}]])
         scs_geo.append(a)
         scs_xyz.append(b)
+        # the same geographic waypoints once more in the same process, under another reference
+        ref2 = (ref[0] + R.choice([0.004, -0.003]), ref[1] + R.choice([0.005, -0.002]), ref[2] + R.choice([0.0, 30.0]))
+        c2 = [tuple(geo_to_cartesian(ref2, t)) for t in (tuple(tgt), tgt2, tgt3)]
+        scs_geo.append(dict(a, mob=(base["mob"][0], base["mob"][1], ref2)))
+        scs_xyz.append(dict(base, mob=(base["mob"][0], base["mob"][1], ref2),
+                            script=[[{"trig": ("init",), "nth": None, "acts": [("goto",) + c2[0]]},
+                                     {"trig": ("telem",), "nth": k, "acts": [("goto",) + c2[1]]}],
+                                    [{"trig": ("init",), "nth": None, "acts": [("goto",) + c2[2]]}]]))
     ra, rb = corr.corr_sims(scs_geo), corr.corr_sims(scs_xyz)
     for x, y in zip(ra, rb):
         chk.record("goto-geo-vs-goto", _brief(x["sc"]), True)
